@@ -204,7 +204,7 @@ PROPS['C17'] = Prop(
     assumptions=['type identity is checked against the instantiated set of types only'])
 
 _RT = ['int key, prototype void(int, Val), event included (AutoDetect)', 'int key, prototype void(Val), ArgumentPassingExcludeEvent', 'user key type with emptying move constructor, by value in the prototype',
-       'getEvent policy (const Ev&, const Val&)', 'getEvent policy taking its parameters by value', 'enum class key, ArgumentPassingIncludeEvent', 'std::string key (20 chars, beyond SSO) by value', 'event excluded from the prototype with a non-identity getEvent policy (code >> 8)', 'int key, prototype void(int, Val&): listeners modify the argument']
+       'getEvent policy (const Ev&, const Val&)', 'getEvent policy taking its parameters by value', 'enum class key, ArgumentPassingIncludeEvent', 'std::string key (20 chars, beyond SSO) by value', 'event excluded from the prototype with a non-identity getEvent policy (code >> 8)', 'int key, prototype void(int, Val&): listeners modify the argument', 'getEvent policy returning a const reference into its argument; the event object is itself convertible to the key type (to another value)']
 _MK = ['default map', 'std::map', 'std::unordered_map']
 def _rt(cfg, mapk, **kw):
     d = {'CFG': cfg, 'MAPK': mapk}; viaq = kw.pop('viaqueue', False)
@@ -213,8 +213,8 @@ def _rt(cfg, mapk, **kw):
                bounds=('EventQueue (every dispatch = enqueue + process), ' if viaq else 'EventDispatcher, ') + '%s, %s; two registered keys (2 listeners each: one by value that consumes its copy, one by const reference) and the dispatched key are %s; payload symbolic; dispatched from temporaries and from lvalues'
                       % (_RT[cfg], _MK[mapk], 'symbolic 32-bit values (8 significant bits with hashed maps)' if cfg != 6 else 'chosen among 4 strings'), **kw)
 PROPS['C04'] = Prop(
-    quick=[_rt(0, 1), _rt(1, 0), _rt(2, 1), _rt(3, 2), _rt(4, 1), _rt(5, 1), _rt(7, 1), _rt(8, 1), _rt(2, 1, viaqueue=True), _rt(3, 1, viaqueue=True), _rt(6, 1), _rt(6, 0), _rt(6, 1, viaqueue=True)],
-    thorough=[_rt(c, m) for c in (0, 1, 2, 3, 4, 5, 7, 8) for m in range(3) if not (c in (7, 8) and m != 1)] + [_rt(c, 1, viaqueue=True) for c in (0, 1, 2, 3, 4, 5)],
+    quick=[_rt(0, 1), _rt(1, 0), _rt(2, 1), _rt(3, 2), _rt(4, 1), _rt(5, 1), _rt(7, 1), _rt(8, 1), _rt(2, 1, viaqueue=True), _rt(3, 1, viaqueue=True), _rt(6, 1), _rt(6, 0), _rt(6, 1, viaqueue=True), _rt(9, 1), _rt(9, 1, viaqueue=True)],
+    thorough=[_rt(c, m) for c in (0, 1, 2, 3, 4, 5, 6, 7, 8, 9) for m in range(3) if not (c in (7, 8) and m != 1)] + [_rt(c, 1, viaqueue=True) for c in (0, 1, 2, 3, 4, 5, 6, 9)],
     outside='std::string keys other than the four 20-character strings of configuration 6 (basic_string<char> is instantiated explicitly in the harness TU, std::_Hash_bytes is re-implemented in the support TU and compared with libstdc++.so on every run); more than two registered keys; per-event listener histories beyond append (those are C01/C02 on the per-event CallbackList); compilers other than clang-14 are covered only by native replay of the witness paths (g++ -O0/-O2, clang++ -O1), not by the solver',
     assumptions=['Callback type is std::function; listeners of one event take the payload by value (and move from their copy) and by const reference',
                  'a witness path on which a g++ build violates an assertion while the clang build and the engine agree is reported as a violation (compiler-dependent behaviour)'])
@@ -337,7 +337,7 @@ PROPS['C06'] = Prop(
               Run('q_threads_ops1_s2_auto_p1', 'q_threads.cpp', {'MODE': 6, 'TT': 2, 'SS': 2, 'OPSET': 1}, preempt=1, covers=2, mt=True, shared_points=True, native=(), budget_s=1700, bounds=_QT % (2, 2, _OPS1, '', 1, _SP_AUTO))],
     outside='more threads / calls per thread / preemptions than stated; HeterEventQueue under threads; weak memory (SC only)',
     assumptions=['per-event ledger: dispatched + taken <= 1 always, == 1 after the final single-threaded drain unless a clearEvents call could have discarded the event; FIFO per (producer, consumer) pair'])
-_DQNV = Run('dqn_values_queue_k3', 'copymove.cpp', {'KK': 3, 'OBJ': 2}, covers=11, optional_covers=(7, 8, 9, 10), bounds='"waitFor times out only while ... no DisableQueueNotify object exists": the C10 queue history (K=3) whose alphabet includes two DisableQueueNotify objects used as values (one move-assigned onto the other, both destroyed): afterwards waitFor(0) reports pending events on every object')
+_DQNV = Run('dqn_values_queue_k3', 'copymove.cpp', {'KK': 3, 'OBJ': 2}, covers=11, optional_covers=(7, 8, 9, 10), bounds='"waitFor times out only while ... no DisableQueueNotify object exists": the C10 queue history (K=3) whose alphabet includes DisableQueueNotify objects used as values (one move-assigned onto the other; a COPY of a guard, destroyed before or after the original; a guard of one queue assigned the guard of another): while a guard or a copy of it is alive waitFor(0) is false, afterwards waitFor(0) reports pending events on every object')
 PROPS['C11'] = Prop(
     quick=[_DQNV, Run('q_observer_t1_s2_p3', 'q_threads.cpp', {'MODE': 11, 'TT': 1, 'SS': 2, 'OPSET': 1}, preempt=3, covers=5, optional_covers=(0, 1, 2), mt=True, bounds=_QT % (1, 2, _OPS1, ' + one observer thread calling emptyQueue() or waitFor(timeout); in every run the listener itself also calls emptyQueue() (single-threaded variant)', 3, _SP_HOOKS)),
            Run('q_observer_t1_s1_auto_p2', 'q_threads.cpp', {'MODE': 11, 'TT': 1, 'SS': 1, 'OPSET': 1}, preempt=2, covers=5, optional_covers=(0, 1, 2), mt=True, shared_points=True, native=(), bounds=_QT % (1, 1, _OPS1, ' + one observer thread', 2, _SP_AUTO)),
